@@ -157,14 +157,16 @@ Inductive site :=
 | S_tlp_definition             (* markings/utils.py check_tlp_marking: marking_obj["definition"] *)
 | S_validator_crash20          (* v20/sdo.py Indicator: run_validator(pattern) outside the wrapper *)
 | S_validator_crash21          (* v21/sdo.py Indicator: run_validator(pattern) outside the wrapper *)
-| S_json_depth.                (* utils.py _get_dict: json.loads on a text nested beyond the interpreter's limit *)
+| S_json_depth                 (* utils.py _get_dict: json.loads on a text nested beyond the interpreter's limit *)
+| S_genid_number_range.        (* canonicalization/NumberToJson.py convert2Es6Format: float(value) of an integer beyond the range of a
+                                  double, reached from _Observable._generate_id (id-less 2.1 observable), outside the wrapper *)
 
 Scheme Equality for site.
 
 Definition all_sites : list site :=
   [S_lib; S_init_extensions_items; S_init_extension_entry; S_init_toplevel_props; S_init_custom_props_keys;
    S_cons_custom_gm; S_ms20_precision; S_d2s_extensions_items; S_d2s_extension_entry; S_detect_objects;
-   S_detect_type; S_tlp_definition; S_validator_crash20; S_validator_crash21; S_json_depth].
+   S_detect_type; S_tlp_definition; S_validator_crash20; S_validator_crash21; S_json_depth; S_genid_number_range].
 
 Definition site_fn (s : site) : string :=
   match s with
@@ -179,6 +181,7 @@ Definition site_fn (s : site) : string :=
   | S_validator_crash20 => "v20.sdo.Indicator._check_object_constraints"
   | S_validator_crash21 => "v21.sdo.Indicator._check_object_constraints"
   | S_json_depth => "utils._get_dict"
+  | S_genid_number_range => "canonicalization.NumberToJson.convert2Es6Format"
   end.
 
 Definition site_tag (s : site) : string :=
@@ -198,6 +201,7 @@ Definition site_tag (s : site) : string :=
   | S_validator_crash20 => "indicator20-empty-pattern-validator-crash"
   | S_validator_crash21 => "indicator21-empty-pattern-validator-crash"
   | S_json_depth => "json-text-nesting-depth"
+  | S_genid_number_range => "generate-id-huge-integer-overflowerror"
   end.
 
 (* variant = which sites are guarded (true = repaired as in proposed_fixes/C17-*.diff) *)
@@ -235,6 +239,10 @@ Definition lift {A} (r : res A) : M A := [r].
 (* an operation that fails with class k at site s on the pinned code and does `fixed` once the site is guarded *)
 Definition guard {A} (V : variant) (s : site) (k : kexn) (fixed : M A) : M A :=
   if V s then fixed else raise k s.
+
+(* an operation that MAY fail: with class k at site s on the unguarded code, with the family class kfix once guarded *)
+Definition may_guard (V : variant) (s : site) (k kfix : kexn) : M unit :=
+  Val tt :: (if V s then [Exc (Known kfix) S_lib] else [Exc (Known k) s]).
 
 Notation "x <- m ;; k" := (bind m (fun x => k)) (at level 61, m at next level, right associativity).
 Notation "m ;;; k" := (seq m k) (at level 61, right associativity).
@@ -306,6 +314,16 @@ Definition py_in (lit : ustring) (x : jvalue) : M bool :=
   | JArr l => ret (existsb (fun e => str_is e lit) l)
   | JStr s => ret (ustr_contains lit s)
   | _ => fail K_TypeError
+  end.
+
+(* an integer float() cannot take (|z| >= 2^1023 is used: the exact bound lies just below 2^1024), anywhere in the value *)
+Fixpoint has_huge_int (v : jvalue) : bool :=
+  match v with
+  | JInt z => Z.leb (Z.pow 2 1023) (Z.abs z)
+  | JArr l => (fix any (l : list jvalue) : bool := match l with [] => false | x :: r => has_huge_int x || any r end) l
+  | JObj m => (fix any (m : list (ustring * jvalue)) : bool :=
+                 match m with [] => false | (_, x) :: r => has_huge_int x || any r end) m
+  | _ => false
   end.
 
 (* `v not in (None, [])` *)
@@ -839,7 +857,14 @@ Section Init.
       let kw'' := match c_kind c with BObs20 | BObs21 => remove_key (us "_valid_refs") kw' | _ => kw' end in
       base_init c ac io kw'' vr ;;;
       match c_kind c with
-      | BObs21 => if mem_key (us "id") kw' then ret tt else may [K_InvalidValueError; K_ValueError]    (* _generate_id *)
+      | BObs21 =>
+          if mem_key (us "id") kw' then ret tt
+          else
+            may [K_InvalidValueError; K_ValueError] ;;;    (* _generate_id: no hashes / a null inside a value *)
+            (* ... and canonicalize() of the id-contributing values: float() of a huge integer *)
+            if existsb (fun kv => has_huge_int (snd kv)) kw'
+            then may_guard V S_genid_number_range K_OverflowError K_ValueError
+            else ret tt
       | _ => ret tt
       end ;;;
       (* class_for_type(ext, version, "extensions")() : None() is a TypeError, else a construction without arguments *)
